@@ -47,7 +47,7 @@ VARIANTS = [
     V("pair-open-closed", ["C11", "C10"], H, "            nodes0to1 = NodeSample.open_linspace(nptsinteg)\n            integrator = IntegratorArray.open_newton_cotes(nptsinteg)", "            nodes0to1 = NodeSample.open_linspace(nptsinteg)\n            integrator = IntegratorArray.closed_newton_cotes(nptsinteg)", "PAIR", "func2func", "open nodes with closed weights"),
     V("pair-size", ["C11", "C10"], H, "            integrator = IntegratorArray.open_newton_cotes(nptsinteg)", "            integrator = IntegratorArray.open_newton_cotes(nptsinteg - 1)", "PAIR", "func2func", "weights for one point less"),
     V("registry-cheby-gauss", ["C10"], CA, "            \"chebyshev\": heavy.NodeSample.chebyshev,\n            \"gauss-legendre\": heavy.NodeSample.gauss_legendre,\n", "            \"chebyshev\": heavy.NodeSample.gauss_legendre,\n            \"gauss-legendre\": heavy.NodeSample.gauss_legendre,\n", "PAIR", "Integrate.density", "chebyshev weights at gauss nodes", near=246),
-    V("integ-default-cheby", ["C16"], CA, "            method = \"open-newton-cotes\"\n        else:\n            method = \"chebyshev\"\n        if nnodes is None:\n            nnodes = 1 + curve.degree\n", "            method = \"chebyshev\"\n        else:\n            method = \"chebyshev\"\n        if nnodes is None:\n            nnodes = 1 + curve.degree\n", "E8", "Integrate.scalar", "default rule on exact knots is Chebyshev", near=157),
+    V("integ-default-cheby", ["C16"], CA, "            method = \"open-newton-cotes\"\n        else:\n            method = \"chebyshev\"\n        if nnodes is None:\n            nnodes = max(2, 1 + curve.degree)  # The closed rule needs 2\n", "            method = \"chebyshev\"\n        else:\n            method = \"chebyshev\"\n        if nnodes is None:\n            nnodes = max(2, 1 + curve.degree)  # The closed rule needs 2\n", "E8", "Integrate.scalar", "default rule on exact knots is Chebyshev", near=157),
     V("div-noguard", ["C08"], C, "            copied.ctrlpoints = [point / other for point in copied.ctrlpoints]\n            return copied\n        if self.knotvector.limits != other.knotvector.limits:\n            raise ValueError\n", "            copied.ctrlpoints = [point / other for point in copied.ctrlpoints]\n            return copied\n", "GATE-LIMITS", "__truediv__", "curve / curve without limits guard"),
     V("fit-rational-drop-nodes", ["C11", "C05"], C, "transmat, materror = lstsq(vectorb, weightsb, vectora, weightsa, nodes)", "transmat, materror = lstsq(vectorb, weightsb, vectora, weightsa)", "ARG-FLOW", "fit_curve", "rational fit drops the interpolation nodes"),
     V("remove-none-nodes", ["C05"], C, "        knots = newknotvec.knots if newknotvec.degree != 0 else None\n        self.update(newknotvec, tolerance, knots)\n\n    def knot_clean", "        knots = newknotvec.knots if newknotvec.degree != 0 else None\n        self.update(newknotvec, tolerance, None)\n\n    def knot_clean", "ARG-FLOW", "knot_remove", "remaining knots not passed on"),
@@ -110,7 +110,7 @@ VARIANTS += [
     V("twin-eq-skip-if-equal", ["C13"], C, "        selfcopy = copy(self)\n        selfcopy.knotvector = newknotvec\n        othercopy = copy(other)\n        othercopy.knotvector = newknotvec\n", "        selfcopy = copy(self)\n        othercopy = copy(other)\n        if self.knotvector != other.knotvector:\n            selfcopy.knotvector = newknotvec\n            othercopy.knotvector = newknotvec\n", None, None, "refinement skipped only for equal knot vectors", twin=True),
     V("twin-derivate-limits", ["C09"], CA, "        newknotvector = number_bound * [knotvector[0]] + number_bound * [knotvector[-1]]", "        umin, umax = curve.knotvector.limits\n        newknotvector = number_bound * [umin] + number_bound * [umax]", None, None, "derivative knot vector from the limits", twin=True),
     V("twin-fit-cond-order", ["C11"], C, "        if self.weights is None and other.weights is None:\n            lstsq = heavy.LeastSquare.spline2spline", "        if other.weights is None and self.weights is None:\n            lstsq = heavy.LeastSquare.spline2spline", None, None, "conjuncts swapped", twin=True),
-    V("twin-apply-roots-local", ["C15", "C04", "C06"], C, "            if heavy.find_roots(tuple(newknotvector), newweights):\n                raise ValueError(\"Zero division in the new weights\")", "            roots = heavy.find_roots(tuple(newknotvector), newweights)\n            if roots:\n                raise ValueError(\"Zero division in the new weights\")", None, None, "zero-test through a local", twin=True),
+    V("twin-apply-roots-local", ["C15", "C04", "C06"], C, "            if heavy.find_roots(tuple(newknotvector), newweights):\n                raise ValueError(\"Zero division in the new weights\")", "            roots = heavy.find_roots(tuple(newknotvector), newweights)\n            if roots:\n                raise ValueError(\"Zero division in the new weights\")", None, None, "zero-test through a local", twin=True, near=580),
     V("twin-lru-int", ["C16", "C10"], H, "    @staticmethod\n    def factorial(number: int) -> int:", "    @staticmethod\n    @lru_cache(maxsize=None)\n    def factorial(number: int) -> int:", None, None, "memoisation keyed by an int", twin=True),
     V("twin-span-cache-halfopen", ["C01"], H, "    for j, node in enumerate(nodes):\n        span = knotvector.span(node)\n        ind = spans.index(span)\n", "    ind = None\n    for j, node in enumerate(nodes):\n        if ind is None or not knots[ind] <= node < knots[ind + 1]:\n            span = knotvector.span(node)\n            ind = spans.index(span)\n", None, None, "span reused for consecutive nodes of the same (half-open) interval", twin=True),
     V("twin-and-count", ["C17"], H, "                index = all_knots.index(knot)\n                mult = vector.mult(knot)\n                if mult < all_mults[index]:", "                index = all_knots.index(knot)\n                mult = vector.count(knot)\n                if mult < all_mults[index]:", None, None, "multiplicity taken with count()", twin=True),
@@ -129,8 +129,8 @@ VARIANTS += [
     V("twin-rsub-neg", ["C08"], C, "    def __rsub__(self, other: object):\n        return other + (-self)", "    def __rsub__(self, other: object):\n        return -(self - other)", None, None, "x - A as -(A - x)", twin=True),
     V("twin-ikv-or-both-ways", ["C17"], H, "        other = ImmutableKnotVector(other)\n        if self.limits != other.limits:\n            raise ValueError\n        all_knots = list(self.knots) + list(other.knots)", "        other = ImmutableKnotVector(other)\n        if not (self.valid(other.limits) and other.valid(self.limits)):\n            raise ValueError\n        all_knots = list(self.knots) + list(other.knots)", None, None, "containment both ways is equality of the intervals", twin=True),
     V("ikv-and-contain", ["C17"], H, "    def __and__(self, other: ImmutableKnotVector) -> ImmutableKnotVector:\n        other = ImmutableKnotVector(other)\n        if self.limits != other.limits:", "    def __and__(self, other: ImmutableKnotVector) -> ImmutableKnotVector:\n        other = ImmutableKnotVector(other)\n        if not other.valid(self.limits):", "SAME-INTERVAL", "__and__", "one-sided containment"),
-    V("twin-scalar-default-closed", ["C10"], CA, "            method = \"open-newton-cotes\"\n        else:\n            method = \"chebyshev\"\n        if nnodes is None:\n            nnodes = 1 + curve.degree\n", "            method = \"closed-newton-cotes\"\n        else:\n            method = \"chebyshev\"\n        if nnodes is None:\n            nnodes = max(2, 1 + curve.degree)\n", None, None, "closed default rule in Integrate.scalar — harmless since every span evaluates its own piece", twin=True, near=157),
-    V("function-default-closed", ["C10"], CA, "            method = \"open-newton-cotes\"\n        else:\n            method = \"chebyshev\"\n        if nnodes is None:\n            nnodes = 1 + knotvector.degree\n", "            method = \"closed-newton-cotes\"\n        else:\n            method = \"chebyshev\"\n        if nnodes is None:\n            nnodes = max(2, 1 + knotvector.degree)\n", "DEFAULT-OPEN", "Integrate.function", "closed default rule where the user integrand is evaluated at the span ends"),
+    V("twin-scalar-default-closed", ["C10"], CA, "            method = \"open-newton-cotes\"\n        else:\n            method = \"chebyshev\"\n        if nnodes is None:\n            nnodes = max(2, 1 + curve.degree)  # The closed rule needs 2\n", "            method = \"closed-newton-cotes\"\n        else:\n            method = \"chebyshev\"\n        if nnodes is None:\n            nnodes = max(2, 1 + curve.degree)  # The closed rule needs 2\n", None, None, "closed default rule in Integrate.scalar — harmless since every span evaluates its own piece", twin=True, near=157),
+    V("function-default-closed", ["C10"], CA, "            method = \"open-newton-cotes\"\n        else:\n            method = \"chebyshev\"\n        if nnodes is None:\n            nnodes = max(2, 1 + knotvector.degree)  # The closed rule needs 2\n", "            method = \"closed-newton-cotes\"\n        else:\n            method = \"chebyshev\"\n        if nnodes is None:\n            nnodes = max(2, 1 + knotvector.degree)  # The closed rule needs 2\n", "DEFAULT-OPEN", "Integrate.function", "closed default rule where the user integrand is evaluated at the span ends"),
     V("rev-F31", ["C10"], CA, "        for piece in curve.split():  # Each piece is closed on its own span\n            start, end = piece.knotvector.limits\n            nodes = tuple(start + (end - start) * node for node in nodes_0to1)\n            curve_vals = tuple(piece.eval(node) for node in nodes)\n            function_vals", "        knots = curve.knotvector.knots\n        for start, end in zip(knots[:-1], knots[1:]):\n            nodes = tuple(start + (end - start) * node for node in nodes_0to1)\n            curve_vals = tuple(curve.eval(node) for node in nodes)\n            function_vals", "PIECEWISE-EVAL", "Integrate.scalar", "whole curve evaluated at the span ends"),
     V("weight-cast-each", ["C18"], K, "            listknots[i + 1] = listknots[i] + weight", "            listknots[i + 1] = listknots[i] + cls(weight)", "SIBLING-CAST", "GeneratorKnotVector.weight", "each weight converted to the class of the first"),
     V("twin-weight-zero", ["C18"], K, "        listknots = [cls(0) for i in range(1 + len(weights))]", "        zero = cls(0)\n        listknots = [zero] * (1 + len(weights))", None, None, "zero of the first weight's class built once", twin=True),
@@ -167,7 +167,7 @@ VARIANTS += [
 VARIANTS += [
     V("rev-F26", ["C11", "C06"], H, "            nodes0to1 = NodeSample.open_linspace(nptsinteg)\n            integrator = IntegratorArray.open_newton_cotes(nptsinteg)", "            nodes0to1 = NodeSample.closed_linspace(nptsinteg)\n            integrator = IntegratorArray.closed_newton_cotes(nptsinteg)", "OPEN-NODES", "func2func", "closed quadrature nodes in the Gram integration"),
     V("rev-F25", ["C09"], CA, "        newcurve = curve.__class__(vector[1:-1], ctrlpoints)\n        return newcurve", "        newcurve = curve.__class__(vector[1:-1], ctrlpoints)\n        newcurve.clean()\n        return newcurve", "NO-LOSSY", "nonrational_bezier", "derivative passed through clean()"),
-    V("rev-F24", ["C12", "C16"], C, "            nodes_0to1 = heavy.NodeSample.closed_linspace(len(points))", "            if isinstance(umin, (int, Fraction)):\n                funcnodes = heavy.NodeSample.closed_linspace\n            else:\n                funcnodes = heavy.NodeSample.chebyshev\n            nodes_0to1 = funcnodes(len(points))", "ONE-NODE-FAMILY", "fit_points", "default nodes chosen by the number type"),
+    V("rev-F24", ["C12", "C16"], C, "            nodes_0to1 = heavy.NodeSample.closed_linspace(max(2, len(points)))", "            if isinstance(umin, (int, Fraction)):\n                funcnodes = heavy.NodeSample.closed_linspace\n            else:\n                funcnodes = heavy.NodeSample.chebyshev\n            nodes_0to1 = funcnodes(max(2, len(points)))", "ONE-NODE-FAMILY", "fit_points", "default nodes chosen by the number type"),
     V("rev-F23", ["C16"], H, "        matrix = np.array(matrix, dtype=\"object\")\n        matrix = np.column_stack((matrix, inverse))", "        matrix = np.column_stack((matrix, inverse))", "FIXED-WIDTH", "invert_integer_matrix", "tuple of Python ints stacked without dtype=object"),
     V("rev-F22", ["C16"], C, "                    invert(w) * num for num, w in zip(numerators, newweights)", "                    num / w for num, w in zip(numerators, newweights)", "MIN-POINT", "Curve.split", "weighted point divided by the new weight"),
     V("twin-derivate-names", ["C09"], CA, "        newcurve = curve.__class__(vector[1:-1], ctrlpoints)\n        return newcurve", "        derivative = curve.__class__(vector[1:-1], ctrlpoints)\n        return derivative", None, None, "result of nonrational_bezier under another name", twin=True),
@@ -195,6 +195,17 @@ VARIANTS += [
 VARIANTS += [
     V("rev-F30", ["C16"], K, "        try:\n            float(other)  # A number shifts, a sequence of nodes is inserted\n        except TypeError:\n            return self.insert(other)\n        return self.shift(other)", "        try:\n            return self.shift(other)\n        except TypeError:\n            return self.insert(other)", "PROBE-OPERAND", "__iadd__", "shift used as the type probe"),
     V("twin-iadd-iter", ["C16", "C03", "C04"], K, "        try:\n            float(other)  # A number shifts, a sequence of nodes is inserted\n        except TypeError:\n            return self.insert(other)\n        return self.shift(other)", "        try:\n            iter(other)\n        except TypeError:\n            return self.shift(other)\n        return self.insert(other)", None, None, "probe with iter(other)", twin=True),
+]
+
+
+VARIANTS += [
+    V("rev-F32a", ["C12"], C, "            nodes_0to1 = heavy.NodeSample.closed_linspace(max(2, len(points)))", "            nodes_0to1 = heavy.NodeSample.closed_linspace(len(points))", "PRECOND-LB", "fit_points", "closed_linspace asked for a single node"),
+    V("rev-F32b", ["C10"], CA, "            nnodes = max(2, 1 + knotvector.degree)  # The closed rule needs 2\n", "            nnodes = 1 + knotvector.degree\n", "PRECOND-LB", "Integrate.function", "one node chosen for a rule that needs two"),
+]
+
+
+VARIANTS += [
+    V("rev-F33", ["C15"], C, "        if self.ctrlpoints is None:\n            if self.weights is None:\n                self.__knotvector = newknotvector\n                return\n", "        if self.ctrlpoints is None:\n            if True:\n                self.__knotvector = newknotvector\n                return\n", "KV-CONSISTENT", "BaseCurve.update", "knot vector rebound without looking at the weights"),
 ]
 
 
@@ -283,8 +294,8 @@ def seeded_variants() -> List[dict]:
             continue
         edits = _hunks(open(pp).read())
         if meta.get("rebased"):
-            rb = meta["rebased"]
-            edits = [(rb["module"], rb["old"], rb["new"], None)]
+            rbs = meta["rebased"] if isinstance(meta["rebased"], list) else [meta["rebased"]]
+            edits = [(rb["module"], rb["old"], rb["new"], rb.get("near")) for rb in rbs]
         exp = meta["expected_report"]
         out.append(dict(id="seeded-" + d, props=meta["detected_by_checks"], module=edits[0][0] if edits else "?", edits=edits, rule=exp["rule"], func=exp["function_contains"], what="independently seeded: " + meta["needs_to_manifest"][:140], twin=False))
     return out
